@@ -179,6 +179,7 @@ class Run(object):
         self.live_views = []
         self.events = []       # the real event objects, kept to check they never change afterwards
         self.escaped = None
+        self.stop_ok = True
         self.sock = None
         self.selector = None
 
@@ -348,6 +349,13 @@ def run_impl(sc, url="ws://example.test/chat", ws_kwargs=None, check_alias=True)
                         mech = "with"
                 else:
                     mech = consume(gen)
+                    if mech is None:
+                        # a finished iterator must stay finished
+                        try:
+                            next(gen)
+                            run.stop_ok = False
+                        except StopIteration:
+                            run.stop_ok = True
                     if mech == "close":
                         gen.close()
                     elif mech == "raise":
